@@ -194,17 +194,18 @@ use uom::si::{
     thermodynamic_temperature as tt, time,
 };
 
+#[macro_export]
 macro_rules! base_set {
     ($name:ident, $l:ident, $m:ident, $t:ident, $i:ident, $th:ident, $n:ident, $j:ident) => {
-        pub type $name<V> = dyn Units<
+        pub type $name<V> = dyn uom::si::Units<
             V,
-            length = len::$l,
-            mass = mass::$m,
-            time = time::$t,
-            electric_current = ec::$i,
-            thermodynamic_temperature = tt::$th,
-            amount_of_substance = aos::$n,
-            luminous_intensity = li::$j,
+            length = uom::si::length::$l,
+            mass = uom::si::mass::$m,
+            time = uom::si::time::$t,
+            electric_current = uom::si::electric_current::$i,
+            thermodynamic_temperature = uom::si::thermodynamic_temperature::$th,
+            amount_of_substance = uom::si::amount_of_substance::$n,
+            luminous_intensity = uom::si::luminous_intensity::$j,
         >;
     };
 }
